@@ -1429,6 +1429,40 @@ func (g *jgen) tplFaultSeq(n, maxSubs int) (*jScenario, string) {
 	return s, names[f1] + "+" + names[f2]
 }
 
+// tplPutErrRun: k publications in a row that the replayer refuses (scripted Put errors of every character), then a
+// subscriber, an accepted publication, another subscriber (with a Replay verdict), one more refused and one more accepted
+// publication - the replayer is still asked every time.
+func (g *jgen) tplPutErrRun(k, maxSubs int) *jScenario {
+	s := g.base()
+	topic := uint64(g.r.Intn(3))
+	steps := []jSeqStep{}
+	for i := 0; i < k; i++ {
+		steps = append(steps, jSeqStep{verdict: g.perr()})
+	}
+	steps = append(steps, jSeqStep{sub: true}, jSeqStep{}, jSeqStep{sub: true}, jSeqStep{verdict: g.perr()}, jSeqStep{})
+	nby := 1 + g.r.Intn(2)
+	g.plainSubs(s, nby, topic)
+	s.repScript = jZeros(nby)
+	prev := jEvN(34, jAny, uint64(nby))
+	pt := jPubSpec{}
+	for _, st := range steps {
+		if st.sub {
+			i := uint64(len(s.subs))
+			s.subs = append(s.subs, jSubSpec{topics: []uint64{topic}, start: prev})
+			s.repScript = append(s.repScript, st.verdict)
+			prev = jEv(31, i)
+		} else {
+			p := uint64(len(pt.msgs))
+			pt.msgs = append(pt.msgs, jMsgSpec{topics: []uint64{topic}, pre: prev})
+			s.putScript = append(s.putScript, st.verdict)
+			prev = jEv(15, p)
+		}
+	}
+	s.pubs = append(s.pubs, pt)
+	s.shuts = []jShutSpec{jFinalShut()}
+	return s
+}
+
 // ---- (e'') message shapes: messages without data through every kind of replayer --------------------------
 //
 // The wrapper alone, or a real FiniteReplayer / ValidReplayer behind it, assigning IDs or not: the message
@@ -1976,6 +2010,11 @@ func genJoe(c *Ctx) {
 	for n := 0; n < 48*mult; n++ {
 		s, name := g.tplFaultSeq(n, maxSubs)
 		g.emit("joe", "replayer-fault-history/"+name, s)
+	}
+	// long runs of refused publications (9 .. 40 in a row), then accepted ones and late subscribers: a Put ERROR never
+	// takes the replayer out of use, however often it comes
+	for n := 0; n < 3*mult; n++ {
+		g.emit("joe", "replayer-fault-history/many-put-errors-in-a-row", g.tplPutErrRun([]int{9, 12, 17, 33, 40, 10}[n%6], maxSubs))
 	}
 	for n := 0; n < 30*mult; n++ {
 		s, name := g.tplShapes(maxSubs)
